@@ -378,7 +378,7 @@ ResolvesUnderRoot ==
           /\ IsPrefix(RootLoc(UseRoot, k).comps, uses[k].loc.comps)
 \* relative to the current directory means: current when the path is USED - at each use anew
 RelCdAtUse ==
-  (outcome \in {"-", "PASS"} /\ UseRoot = "cd") =>
+  (Len(uses) >= 1 /\ UseRoot = "cd") =>
      /\ \A k \in 1..Len(uses) :
           /\ uses[k].loc = [root |-> uses[k].at.root,
                             comps |-> uses[k].at.comps \o TextComps(prog, Use.x) \o Leaf(k)]
